@@ -67,18 +67,22 @@ def replay(spec):
     if LL.shape != want.shape or not np.allclose(LL, want):
         problems.append("data array misaligned: LL_data[0] = %s, frame 0 gives %s" % (LL[0].tolist() if LL.ndim == 3 else LL.tolist(), want[0].tolist()))
     theta = 1.3
-    got = setup.cost_function([theta])
-    tot = 0.0
-    for n in range(N):
-        M = mk()
-        M.set_species(ics[n])
-        M.set_params({"k1": theta, "cnd": cnds[n], "k2": k2s[n]})
-        df = py_simulate_model(frames[n]["time"].to_numpy(), Model=M)
-        for m in meas:
-            tot += np.sum(np.abs(frames[n][m].to_numpy() - df[m].to_numpy()) ** p)
-    exp = np.log(1 / 10.0) - tot ** (1.0 / p)
-    if not abs(got - exp) <= 1e-6 * max(1.0, abs(exp)):
-        problems.append("cost(theta) = %r, stated posterior %r" % (got, exp))
+    got = None
+    for th in (theta, 0.0, 10.0):            # an interior point and the two ends of the (closed) support of the uniform prior
+        g_ = setup.cost_function([th])
+        if got is None:
+            got = g_
+        tot = 0.0
+        for n in range(N):
+            M = mk()
+            M.set_species(ics[n])
+            M.set_params({"k1": th, "cnd": cnds[n], "k2": k2s[n]})
+            df = py_simulate_model(frames[n]["time"].to_numpy(), Model=M)
+            for m in meas:
+                tot += np.sum(np.abs(frames[n][m].to_numpy() - df[m].to_numpy()) ** p)
+        exp = np.log(1 / 10.0) - tot ** (1.0 / p)
+        if not abs(g_ - exp) <= 1e-6 * max(1.0, abs(exp)):
+            problems.append("cost(theta = %s) = %r, stated posterior %r (uniform prior on [0, 10])" % (th, g_, exp))
     got2 = setup.cost_function([0.4])
     got3 = setup.cost_function([theta])
     if abs(got3 - got) > 1e-9 * max(1.0, abs(got)):
